@@ -241,7 +241,14 @@ def run_component(c, res):
                 V("wakeup", "after %r: transport writable and idle but push producer %s is still paused (history %s)" % (
                     where, p.name, "".join(p.hist[-8:])), "lost-wakeup")
         cn = state["conn"]
-        if cn is not None and not state.get("inbound_unspecified"):
+        if cn is not None and state.get("inbound_unspecified"):
+            # after a paused subchannel was closed only one direction is asserted: as long as some OTHER, live
+            # subchannel has an outstanding pause request the connection stays paused
+            if paused_req and not cn.read_paused:
+                V("inbound", "after %r: connection read side is running although live subchannels %r still have an "
+                  "outstanding pause request (a paused subchannel was closed earlier)" % (
+                      where, sorted(s.name for s in paused_req)), "inbound-resumed-with-live-pause:%s" % where[1])
+        elif cn is not None:
             want = bool(paused_req)
             if cn.read_paused != want:
                 V("inbound", "after %r: connection read side paused=%s but subchannels with an outstanding pause "
